@@ -442,15 +442,21 @@ pub fn generate(seed: u64, tier: Tier, p: &Profile) -> Scenario {
             let d = g.r.below(g.w.datums.len() as u64) as u16;
             let lang = g.w.scripts[s as usize].lang().unwrap();
             // V1 needs a datum hash + witness datum; V2/V3 may use inline or reference datums
-            let (at, du) = match g.r.below(if lang == 1 { 1 } else { 4 }) {
-                0 => (Some(DatumAt::Hash(d)), DatumUse::Witness(d)),
-                1 => (Some(DatumAt::Inline(d)), DatumUse::None),
-                2 => (Some(DatumAt::Hash(d)), DatumUse::Ref(g.datum_holder_of(d))),
-                _ => (Some(DatumAt::Hash(d)), DatumUse::Witness(d)),
+            // V1 needs a datum hash + witness datum; V2/V3 may also carry the datum inline, in which
+            // case the datum source is nothing or the spent UTxO itself ("datum is in this input")
+            let (at, du_self) = match g.r.below(if lang == 1 { 1 } else { 4 }) {
+                0 | 3 => (Some(DatumAt::Hash(d)), None),
+                1 => (Some(DatumAt::Inline(d)), Some(false)),
+                _ => (Some(DatumAt::Inline(d)), Some(true)),
             };
             let addr = if g.r.chance(1, 2) { AddrSpec::Ent(Cred::Script(s)) } else { AddrSpec::Base(Cred::Script(s), Cred::Key(g.kid())) };
             let assets = if use_assets && g.r.chance(1, 3) { vec![AssetQ { p: classes[0].0, n: classes[0].1.clone(), q: g.amount() }] } else { vec![] };
             let u = g.new_utxo(addr, coin + g.min_ada(60) * assets.len() as u64, assets, at, None);
+            let du = match du_self {
+                None => DatumUse::Witness(d),
+                Some(false) => DatumUse::None,
+                Some(true) => DatumUse::Ref(u),
+            };
             let wit = g.wit_plutus(s, du);
             plan.pre.push(Op::InScript { utxo: u, wit, by_utxo: g.r.chance(1, 2) });
             plan.uses_plutus = true;
@@ -718,8 +724,29 @@ pub fn generate(seed: u64, tier: Tier, p: &Profile) -> Scenario {
                 for a in &cassets {
                     *ra.entry((a.p, a.n.clone())).or_insert(0) += a.q;
                 }
-                let assets: Vec<AssetQ> = ra.into_iter().map(|((p, n), q)| AssetQ { p, n, q }).collect();
-                let coin = (total / 2).max(g.min_ada(60 * assets.len() as u64));
+                let mut assets: Vec<AssetQ> = ra.into_iter().map(|((p, n), q)| AssetQ { p, n, q }).collect();
+                // return outputs with fewer / equal / more / different assets than the collateral inputs hold
+                match g.r.below(8) {
+                    0 if !assets.is_empty() => assets[0].q = assets[0].q.saturating_sub(1).max(1),
+                    1 if !assets.is_empty() => assets[0].q += 1 + g.r.below(5),
+                    2 => assets.push(AssetQ { p: 2000 + g.r.below(3) as u16, n: b"foreign".to_vec(), q: 1 + g.r.below(100) }),
+                    3 if !assets.is_empty() => {
+                        assets.remove(0);
+                    }
+                    4 if !classes.is_empty() => {
+                        let c = classes[classes.len() - 1].clone();
+                        if !assets.iter().any(|a| a.p == c.0 && a.n == c.1) {
+                            assets.push(AssetQ { p: c.0, n: c.1, q: 1 + g.r.below(10) });
+                        }
+                    }
+                    _ => {}
+                }
+                let coin = match g.r.below(5) {
+                    0 => g.min_ada(60 * assets.len() as u64) - 1 - g.r.below(1000),
+                    1 => total,
+                    2 => total + 1,
+                    _ => (total / 2).max(g.min_ada(60 * assets.len() as u64)),
+                };
                 coll_ops.push(Op::CollReturnAndTotal(OutSpec { addr: ret_addr, coin, assets, datum: None, script_ref: None, min_coin: false }));
             }
         }
@@ -906,6 +933,7 @@ pub fn declared_keys(sc: &Scenario, h: &History, upto_op: usize, required_script
             out.insert(key(k).hash_bytes.to_vec());
         }
     };
+    let mut extra: Vec<Vec<u8>> = vec![];
     for (i, op) in sc.ops.iter().enumerate() {
         if i >= upto_op || !h.results.get(i).map_or(false, |r| r.is_ok()) {
             continue;
@@ -915,10 +943,13 @@ pub fn declared_keys(sc: &Scenario, h: &History, upto_op: usize, required_script
             Op::Cert(_, Some(w)) | Op::Wdr(_, _, Some(w)) | Op::Propose(_, Some(w)) => visit(w),
             Op::Mint { wit, .. } => visit(wit),
             Op::Vote { wit: Some(w), .. } => visit(w),
+            // a key declared on the inputs builder is a promise that it will sign
+            Op::InReqSigner(k) => extra.push(key(*k).hash_bytes.to_vec()),
             Op::MintAndOut { script, .. } => visit(&Wit { script: *script, how: ScriptUse::Witness, datum: DatumUse::None, red: 0, mem: 0, steps: 0, signers: None }),
             _ => {}
         }
     }
+    out.extend(extra);
     out
 }
 
